@@ -242,6 +242,16 @@ def run(ctx):
               "the completion function is called only from one spawned worker closure (single completer => status written once per acknowledgement, see R11.3)",
               detail="callers=%s" % sorted(final_callers))
 
+    # ---- R12.6: exactly one completion per queued command, after its handler, with the handler's status
+    import c11
+    from ackmodel import AckModel
+    A = AckModel(ctx)
+    W = c11.find_worker(ctx, A)
+    if W is None:
+        ctx.bad("R12.6", "worker", "the single command worker closure was not found", detail="ANCHOR-MISSING")
+    else:
+        c11.worker_loop(ctx, A, W, "R12.6")
+
     # ---- queued pairs always carry a fresh (pending) acknowledgement -----------------------------
     n_pairs = 0
     for name, f in F.fns.items():
